@@ -150,7 +150,7 @@ def _stage1(job):
         shutil.rmtree(d, ignore_errors=True)
 
 
-def _synth_centres(job, g):
+def _synth_centres(job, g, lattice=False):
     """residue centres drawn by the generator itself (own little walk, wrapped into the box): -mc input that does
     not depend on an earlier build of the tree under test; bonded centres often lie across a box face.
     Returns a structure like read_gro() with ONE pseudo atom per atom of the topology (all atoms of a residue on its
@@ -183,6 +183,19 @@ def _synth_centres(job, g):
         for k in order:
             parent = next((p for p in adj[k] if p in pos), None)
             for _try in range(200):
+                if lattice:
+                    # integer lattice points, bonded centres one lattice step apart
+                    if parent is None:
+                        cand = [float(g.randint(1, max(1, int(box[d]) - 1))) for d in range(3)]
+                    else:
+                        cand = list(pos[parent])
+                        ax = g.randrange(3)
+                        cand[ax] += g.choice([-1.0, 1.0])
+                        if not (1.0 <= cand[ax] <= int(box[ax]) - 1):
+                            continue
+                    if any(all(abs(cand[d] - q[d]) < 0.5 for d in range(3)) for q in placed):
+                        continue
+                    break
                 if parent is None:
                     cand = [g.uniform(0.05, box[d] - 0.05) for d in range(3)]
                 else:
@@ -203,8 +216,12 @@ def _synth_centres(job, g):
                 return None
             pos[k] = cand
             placed.append(cand)
+        logical, last = -1, None
         for (resid, resname, aname, _t) in alist:
-            atoms.append({"resid": resid, "resname": resname, "atomname": aname, "xyz": tuple(pos[resid - 1])})
+            if (resid, resname) != last:
+                logical, last = logical + 1, (resid, resname)
+            k = logical if mt.get("resid_restart") is not None else resid - 1     # (list_order: listing != numbering)
+            atoms.append({"resid": resid, "resname": resname, "atomname": aname, "xyz": tuple(pos[k])})
     return {"atoms": atoms, "box": list(box)}
 
 
@@ -255,13 +272,160 @@ def finish_ligands(job, g):
     return True
 
 
-def add_coordinates(job, g, profile, force_res=None, cut_at_instance=None):
+def add_resid_restart(job, g):
+    """block copolymers whose residue numbering starts again at 1 with the second block (valid GROMACS input; the
+    two blocks use different residue names, so (number, name) still identifies a residue)"""
+    done = False
+    for mt in job["spec"]["moltypes"]:
+        if mt.get("list_order") or mt.get("residue_override") or mt.get("restype_override") or len(mt["residues"]) < 2:
+            continue
+        res = mt["residues"]
+        cuts = [k for k in range(1, len(res)) if not (set(res[:k]) & set(res[k:]))]
+        if cuts and g.random() < 0.8:
+            mt["resid_restart"] = g.choice(cuts)
+            done = True
+    if done:
+        job["resid_restart"] = True
+    return done
+
+
+def add_both_inputs(job, g):
+    """-c (complete atom-level structure of an earlier build) together with -mc (residue centres, moved a little
+    away from where the atoms of -c are): polyply flags every residue for backmapping around the -mc centres"""
+    from gen import topgen
+    from oracles.final_state import write_gro_text
+    gro = _stage1(job)
+    if gro is None:
+        return False
+    box = gro["box"][:3]
+    shift = [round(g.uniform(-0.3, 0.3), 3) for _ in range(3)]
+    lines_c = [(at["resid"], at["resname"], at["atomname"]) + tuple(at["xyz"]) for at in gro["atoms"]]
+    lines_m = []
+    gi = 0
+    for inst, (_m, atoms) in enumerate(topgen.ground_truth(job["spec"])):
+        cur, idxs = None, []
+        groups = []
+        for (resid, resname, _an, _t) in atoms:
+            if (resid, resname) != cur:
+                cur = (resid, resname)
+                groups.append((resid, resname, []))
+            groups[-1][2].append(gi)
+            gi += 1
+        for resid, resname, idxs in groups:
+            c = [sum(gro["atoms"][a]["xyz"][d] for a in idxs) / len(idxs) for d in range(3)]
+            if not all(0.0 <= c[d] <= box[d] - 1e-3 for d in range(3)):
+                return False
+            m = [round(min(max(c[d] + shift[d], 0.01), box[d] - 0.01), 3) for d in range(3)]
+            lines_m.append((resid, resname, "CG") + tuple(m))
+    job["coord_text"] = write_gro_text("verif atoms", lines_c, box)
+    job["meta_text"] = write_gro_text("verif centres", lines_m, box)
+    job["coord_kind"] = "mol"
+    job["coord_box"] = box
+    job["coord_mode"] = "both"
+    job["opts"].pop("box", None)
+    job["opts"].pop("density", None)
+    return True
+
+
+def add_split(job, g):
+    """-split: one residue type with >= 3 real atoms is cut into two new residues (both connected); used together with
+    an atom-level input structure"""
+    spec = job["spec"]
+    used = {r for mt in spec["moltypes"] for r in mt["residues"] if any(n == mt["name"] for n, _ in spec["molecules"])}
+    overridden = {n for mt in spec["moltypes"] for n in mt.get("restype_override", {})} | \
+                 {mt["residues"][int(i)] for mt in spec["moltypes"] for i in mt.get("residue_override", {})}
+    cands = []
+    for n, rt in sorted(spec["restypes"].items()):
+        nat = len(rt["atoms"])
+        if n not in used or n in overridden or rt["vsites"] or nat < 3:
+            continue
+        adj = {k: set() for k in range(nat)}
+        for a, b, *_ in list(rt["bonds"]) + list(rt["constraints"]):
+            adj[a].add(b)
+            adj[b].add(a)
+
+        def connected(group):
+            group = set(group)
+            seen, todo = set(), [min(group)]
+            while todo:
+                x = todo.pop()
+                if x in seen:
+                    continue
+                seen.add(x)
+                todo += [y for y in adj[x] if y in group and y not in seen]
+            return seen == group
+        for j in range(1, nat):
+            g1, g2 = list(range(j)), list(range(j, nat))
+            if connected(g1) and connected(g2):
+                cands.append((n, g1, g2))
+    if not cands:
+        return False
+    n, g1, g2 = g.choice(cands)
+    rt = spec["restypes"][n]
+    # polyply refuses supplied residues whose centre lies outside the box: the centres of the new (smaller) residues
+    # are tested here like those of the whole residues in add_coordinates
+    if job.get("supplied_atoms") and job.get("coord_box"):
+        from gen import topgen
+        names1 = {rt["atoms"][k]["name"] for k in g1}
+        box = job["coord_box"]
+        gi = 0
+        groups = {}
+        for inst, (_m, atoms) in enumerate(topgen.ground_truth(spec)):
+            for (resid, resname, aname, _t) in atoms:
+                if resname == n and str(gi) in job["supplied_atoms"]:
+                    groups.setdefault((inst, resid, aname in names1), []).append(job["supplied_atoms"][str(gi)])
+                gi += 1
+        for pts in groups.values():
+            for d in range(3):
+                c = sum(p[d] for p in pts) / len(pts)
+                if not (0.0 <= c <= box[d] - 1e-3):
+                    return False
+    tag = n[-1]
+    job["opts"]["split"] = [f"{n}:X{tag}-" + ",".join(rt["atoms"][k]["name"] for k in g1)
+                            + f":Y{tag}-" + ",".join(rt["atoms"][k]["name"] for k in g2)]
+    job["split_resname"] = n
+    return True
+
+
+def make_restart_job(job, g):
+    """a diblock a^i b^j whose residue numbers start again with the b block; half of the time b is a second NAME for
+    the content of a (same atom names, one shared template).  Returns the index (within the molecule) of the first
+    b residue, or None."""
+    import copy
+    spec = job["spec"]
+    names = sorted(n for n, rt in spec["restypes"].items() if not rt["vsites"])
+    if not names:
+        return None
+    a = g.choice(names)
+    if g.random() < 0.5 or len(names) < 2:
+        b = "RX" if a != "RX" else "RY"
+        spec["restypes"][b] = copy.deepcopy(spec["restypes"][a])
+        spec["restypes"][b]["name"] = b
+    else:
+        b = g.choice([n for n in names if n != a])
+    i, j = g.randint(1, 4), g.randint(1, 4)
+    mt = spec["moltypes"][0]
+    for k in ("list_order", "residue_override", "restype_override"):
+        mt.pop(k, None)
+    mt.update({"shape": "linear", "residues": [a] * i + [b] * j, "edges": [[x, x + 1] for x in range(i + j - 1)],
+               "resid_restart": i})
+    spec["molecules"] = [[mt["name"], g.randint(1, 2)]] + [e for e in spec["molecules"] if e[0] != mt["name"]][:2]
+    job["resid_restart"] = True
+    return i
+
+
+def add_coordinates(job, g, profile, force_res=None, cut_at_instance=None, cut_at_residue=None):
     """Turn `job` into a two-stage job: supply (part of) an earlier build as -c / -mc input."""
     from gen import topgen
     from oracles.final_state import write_gro_text
     gro = None
     synth = False
-    if g.random() < profile.get("p_synth_centres", 0.0):
+    if profile.get("lattice_centres"):
+        gro = _synth_centres(job, g, lattice=True)
+        synth = gro is not None
+        if gro is None:
+            return False
+    elif g.random() < profile.get("p_synth_centres", 0.0):
         gro = _synth_centres(job, g)
         synth = gro is not None
     if gro is None:
@@ -276,7 +440,7 @@ def add_coordinates(job, g, profile, force_res=None, cut_at_instance=None):
     for inst, (molname, atoms) in enumerate(truth):
         cur = None
         for (resid, resname, aname, _t) in atoms:
-            if cur is None or cur[1] != resid:
+            if cur is None or cur[1] != resid or cur[2] != resname:
                 cur = [inst, resid, resname, [], molname]
                 residues.append(cur)
             cur[3].append(gi)
@@ -304,6 +468,10 @@ def add_coordinates(job, g, profile, force_res=None, cut_at_instance=None):
         cut = g.randint(1, max(1, nres - 1))
     if cut_at_instance is not None:
         cut = min(k for k, r in enumerate(residues) if r[0] >= cut_at_instance)
+    if cut_at_residue is not None:
+        mode = "prefix" if not synth and g.random() < 0.7 else "meta_prefix"
+        kind = "meta" if mode.startswith("meta") else "mol"
+        cut = cut_at_residue
     res_names = []
     ignore = []
     molnames = [m for m, _ in spec["molecules"]]
@@ -331,7 +499,7 @@ def add_coordinates(job, g, profile, force_res=None, cut_at_instance=None):
     built = []
     for k, (inst, resid, resname, idxs, molname) in enumerate(residues):
         if resname in res_names or k >= cut:
-            built.append([inst, resid])
+            built.append([inst, resid, resname])
             continue
         if kind == "mol":
             for a in idxs:
@@ -341,7 +509,7 @@ def add_coordinates(job, g, profile, force_res=None, cut_at_instance=None):
         else:
             xyz = [round(sum(gro["atoms"][a]["xyz"][d] for a in idxs) / len(idxs), 3) for d in range(3)]
             lines.append((resid, resname, "CG") + tuple(xyz))
-            supplied_centres[f"{inst}:{resid}"] = xyz
+            supplied_centres[f"{inst}:{resid}:{resname}"] = xyz
     job["coord_text"] = write_gro_text("verif input", lines, gro["box"][:3])
     if kind == "mol" and lines and g.random() < profile.get("p_pdb", 0.0) and all(len(l[2]) <= 4 and len(l[1]) <= 3 for l in lines):
         from oracles.final_state import write_pdb_text
@@ -424,14 +592,18 @@ def add_user_templates(job, g):
             # overridden residue types differ in content: no user template for those names
             names = [n for n in names if n not in mt.get("restype_override", {})]
             names = [n for n in names if n not in {mt["residues"][int(i)] for i in mt.get("residue_override", {})}]
+    # names whose residues differ in content (several templates per name): a size may still be given for the name
+    clash_names = sorted({n for mt in spec["moltypes"] for n in mt.get("restype_override", {})}
+                         | {mt["residues"][int(i)] for mt in spec["moltypes"] for i in mt.get("residue_override", {})})
+    clash_names = [n for n in clash_names if n in used]
     names = [n for n in names if n in used]
-    if not names:
+    if not names and not clash_names:
         return False
     templates = {}
     volumes = {}
     user_templates = {}
     user_volumes = {}
-    chosen = g.sample(names, g.randint(1, min(2, len(names))))
+    chosen = g.sample(names, g.randint(1, min(2, len(names)))) if names else []
     if job.get("alias_pair") and all(x in names for x in job["alias_pair"]):
         chosen = list(job["alias_pair"])          # templates for two residue names with the same labelled graph
     for n in chosen:
@@ -455,6 +627,12 @@ def add_user_templates(job, g):
             v = round(g.uniform(0.35, 0.7), 3)
             volumes[n] = v
             user_volumes[n] = v
+    if clash_names and g.random() < 0.7:
+        n = g.choice(clash_names)
+        v = round(g.uniform(0.35, 0.7), 3)
+        volumes[n] = v
+        user_volumes[n] = v
+        job["volume_for_clashing_name"] = True
     job["bld_templates"] = templates
     job["bld_volumes"] = volumes
     job["user_templates"] = user_templates
@@ -504,6 +682,36 @@ def add_resname_clash(job, g):
     return True
 
 
+def add_bigger_variant(job, g):
+    """some residues of a molecule keep their residue NAME but carry one or two extra beads (functionalised repeat
+    units): same name, different template and size inside one molecule"""
+    spec = job["spec"]
+    cands = [m for m in spec["moltypes"] if len(m["residues"]) >= 3 and not m.get("residue_override")
+             and not m.get("restype_override") and not m.get("list_order")]
+    if not cands:
+        return False
+    mt = g.choice(cands)
+    rn = g.choice(sorted(set(mt["residues"])))
+    base = spec["restypes"][rn]
+    if base["vsites"] or base.get("impossible") or base.get("conflict"):
+        return False
+    idxs = [i for i, r in enumerate(mt["residues"]) if r == rn]
+    pick = [i for i in idxs if g.random() < 0.4] or [g.choice(idxs)]
+    if len(pick) == len(idxs) and len(idxs) > 1:
+        pick = pick[:-1]
+    new = {k: ([list(x) if isinstance(x, list) else (dict(x) if isinstance(x, dict) else x) for x in v]
+               if isinstance(v, list) else v) for k, v in base.items()}
+    n0 = len(new["atoms"])
+    at = new["atoms"][0]["atype"]
+    extra = g.randint(1, 2)
+    for e in range(extra):
+        new["atoms"].append({"name": f"Z{e + 1}", "atype": at})
+        new["bonds"].append([n0 - 1 + e, n0 + e, base.get("blen", 0.3), 5000])
+    mt["residue_override"] = {str(i): new for i in pick}
+    job["bigger_variant"] = True
+    return True
+
+
 def make_interior_kept(job, g):
     """one linear chain type a^i b^j a^k whose b residues are supplied (kept) and whose a residues are rebuilt
     (-res a): kept residues lie in the middle of the growth order, so rewinds pass over them"""
@@ -514,6 +722,7 @@ def make_interior_kept(job, g):
     a, b = g.sample(names, 2)
     i, j, k = g.randint(2, 4), g.randint(1, 2), g.randint(2, 4)
     mt = spec["moltypes"][0]
+    mt.pop("resid_restart", None)
     mt.update({"shape": "linear", "residues": [a] * i + [b] * j + [a] * k,
                "edges": [[x, x + 1] for x in range(i + j + k - 1)]})
     mt.pop("restype_override", None)
@@ -585,6 +794,7 @@ def add_pre_spec(job, g):
     mt = alt["moltypes"][-1]
     mt.pop("list_order", None)
     mt.pop("residue_override", None)
+    mt.pop("resid_restart", None)
     if mt["shape"] in ("linear",) and len(mt["residues"]) >= 3:
         k = len(mt["residues"]) - 1
         mt["residues"] = mt["residues"][:k]
